@@ -1,3 +1,4 @@
+pub mod exec;
 pub mod plan;
 pub mod rec;
 pub mod seams;
